@@ -215,6 +215,8 @@ type idxProver struct {
 	visiting map[string]bool
 	seeds    []*lin
 	fcName   map[string]string // len(P.Name) symbol -> P (hclsyntax.FunctionCallExpr path)
+	// count#pos symbol -> the lengths that bound the result of a counting helper called there
+	callBounds map[string][]*lin
 }
 
 type factSet struct {
@@ -560,6 +562,36 @@ func (ip *idxProver) parse(fn *Func, e ast.Expr, depth int) *lin {
 		}
 		if tv, ok := info.Types[x.Fun]; ok && tv.IsType() && len(x.Args) == 1 {
 			return ip.parse(fn, x.Args[0], depth) // int(x), uint(x)
+		}
+		if f := calleeOf(info, x); f != nil && ip.p.FuncOf[f] != nil {
+			// n := a.commonPrefixLen(b): a helper that counts up to the length of its operands
+			if idxs := countingBounds(ip.p.FuncOf[f]); len(idxs) > 0 {
+				var bounds []*lin
+				for _, pi := range idxs {
+					var arg ast.Expr
+					if pi < 0 {
+						if sel, ok := ast.Unparen(x.Fun).(*ast.SelectorExpr); ok {
+							arg = sel.X
+						}
+					} else if pi < len(x.Args) && !x.Ellipsis.IsValid() {
+						arg = x.Args[pi]
+					}
+					if arg == nil {
+						continue
+					}
+					if ln := ip.lenOf(fn, arg, depth); ln != nil {
+						bounds = append(bounds, ln)
+					}
+				}
+				if len(bounds) > 0 {
+					sym := fmt.Sprintf("count#%d", x.Pos())
+					if ip.callBounds == nil {
+						ip.callBounds = map[string][]*lin{}
+					}
+					ip.callBounds[sym] = bounds
+					return linSym(sym)
+				}
+			}
 		}
 	case *ast.Ident:
 		o := info.ObjectOf(x)
@@ -926,6 +958,13 @@ func (ip *idxProver) symbolFacts(fn *Func, at ast.Node, s string, fs *factSet, d
 	}
 	if ip.unsigned[s] {
 		fs.le0(linSym(s).neg(), "unsigned")
+	}
+	if bs := ip.callBounds[s]; len(bs) > 0 {
+		fs.le0(linSym(s).neg(), "counting helper: result >= 0")
+		for _, b := range bs {
+			fs.le0(linSym(s).sub(b), "counting helper: the count stops below the length of its operand")
+		}
+		return
 	}
 	if fc := ip.fcName[s]; fc != "" {
 		// hclsyntax: FunctionCallExpr.Name is exactly the text of NameRange
@@ -2114,4 +2153,170 @@ func runP2Producers(p *Prog, r *Report) {
 		})
 	}
 	r.ExpectMin("E4.P2-producers", n, 1)
+}
+
+// countingBounds: cf returns a counter that starts at 0 and is only ever incremented by the one
+// `n++` of a loop whose condition has the conjunct `n < len(P)` for a slice / string parameter
+// (or receiver) P that cf never re-assigns: 0 <= result <= len(P). Returns the parameter
+// indexes of every such P (-1: the receiver); nil when cf is not of that shape.
+func countingBounds(cf *Func) []int {
+	if cf == nil || cf.Body == nil || cf.Decl == nil || cf.Decl.Type.Results == nil || len(cf.Decl.Type.Results.List) != 1 {
+		return nil
+	}
+	info := cf.Info()
+	var n types.Object
+	ok := true
+	ast.Inspect(cf.Body, func(m ast.Node) bool {
+		switch x := m.(type) {
+		case *ast.FuncLit:
+			ok = false
+			return false
+		case *ast.ReturnStmt:
+			if len(x.Results) != 1 {
+				ok = false
+				return true
+			}
+			id, isID := ast.Unparen(x.Results[0]).(*ast.Ident)
+			if !isID || (n != nil && info.ObjectOf(id) != n) {
+				ok = false
+				return true
+			}
+			n = info.ObjectOf(id)
+		}
+		return true
+	})
+	v, isVar := n.(*types.Var)
+	if !ok || n == nil || !isVar || v.IsField() || cf.isParam(n) {
+		return nil
+	}
+	if b, isB := v.Type().Underlying().(*types.Basic); !isB || b.Kind() != types.Int {
+		return nil
+	}
+	var incs []*ast.IncDecStmt
+	inits := 0
+	ast.Inspect(cf.Body, func(m ast.Node) bool {
+		switch x := m.(type) {
+		case *ast.UnaryExpr:
+			if id, isID := ast.Unparen(x.X).(*ast.Ident); isID && x.Op == token.AND && info.ObjectOf(id) == n {
+				ok = false
+			}
+		case *ast.IncDecStmt:
+			if id, isID := ast.Unparen(x.X).(*ast.Ident); isID && info.ObjectOf(id) == n {
+				if x.Tok != token.INC {
+					ok = false
+				}
+				incs = append(incs, x)
+			}
+		case *ast.AssignStmt:
+			for i, l := range x.Lhs {
+				if id, isID := ast.Unparen(l).(*ast.Ident); isID && info.ObjectOf(id) == n {
+					if x.Tok == token.DEFINE && len(x.Lhs) == len(x.Rhs) {
+						if c, isC := constInt(info, x.Rhs[i]); isC && c == 0 {
+							inits++
+							continue
+						}
+					}
+					ok = false
+				}
+			}
+		case *ast.ValueSpec:
+			for i, nid := range x.Names {
+				if info.ObjectOf(nid) == n {
+					if i < len(x.Values) {
+						if c, isC := constInt(info, x.Values[i]); !isC || c != 0 {
+							ok = false
+						}
+					}
+					inits++
+				}
+			}
+		case *ast.RangeStmt:
+			for _, kv := range []ast.Expr{x.Key, x.Value} {
+				if id, isID := kv.(*ast.Ident); isID && kv != nil && info.ObjectOf(id) == n {
+					ok = false
+				}
+			}
+		}
+		return true
+	})
+	if !ok || len(incs) != 1 || inits != 1 {
+		return nil
+	}
+	// innermost enclosing loop of the increment
+	var loop *ast.ForStmt
+	for par := cf.Prog.Parent(incs[0]); par != nil; par = cf.Prog.Parent(par) {
+		if _, isR := par.(*ast.RangeStmt); isR {
+			return nil
+		}
+		if f, isF := par.(*ast.ForStmt); isF {
+			loop = f
+			break
+		}
+		if par == ast.Node(cf.Body) {
+			break
+		}
+	}
+	if loop == nil || loop.Cond == nil {
+		return nil
+	}
+	params := map[types.Object]int{}
+	if cf.Decl.Recv != nil && len(cf.Decl.Recv.List) == 1 && len(cf.Decl.Recv.List[0].Names) == 1 {
+		params[info.ObjectOf(cf.Decl.Recv.List[0].Names[0])] = -1
+	}
+	pi := 0
+	for _, fld := range cf.Decl.Type.Params.List {
+		if len(fld.Names) == 0 {
+			pi++
+		}
+		for _, nm := range fld.Names {
+			params[info.ObjectOf(nm)] = pi
+			pi++
+		}
+	}
+	var out []int
+	var conj func(e ast.Expr)
+	conj = func(e ast.Expr) {
+		e = ast.Unparen(e)
+		be, isB := e.(*ast.BinaryExpr)
+		if !isB {
+			return
+		}
+		if be.Op == token.LAND {
+			conj(be.X)
+			conj(be.Y)
+			return
+		}
+		l, r := be.X, be.Y
+		if be.Op == token.GTR {
+			l, r = r, l
+		} else if be.Op != token.LSS {
+			return
+		}
+		id, isID := ast.Unparen(l).(*ast.Ident)
+		if !isID || info.ObjectOf(id) != n {
+			return
+		}
+		call, isC := ast.Unparen(r).(*ast.CallExpr)
+		if !isC || !isLenCall(info, call) {
+			return
+		}
+		pid, isID := ast.Unparen(call.Args[0]).(*ast.Ident)
+		if !isID {
+			return
+		}
+		po := info.ObjectOf(pid)
+		idx, isParam := params[po]
+		if !isParam || len(cf.Assignments(po)) > 0 {
+			return
+		}
+		switch po.Type().Underlying().(type) {
+		case *types.Slice:
+		case *types.Basic:
+		default:
+			return
+		}
+		out = append(out, idx)
+	}
+	conj(loop.Cond)
+	return out
 }
